@@ -12,7 +12,7 @@ res=""
 cp "$OUT/demo_test.go" "$PKG/zz_demo_test.go"
 go test -vet=off -count=1 $FLAGS -run 'Demo|C[0-9][0-9]' ./$PKG > "$WT/demo_without.log" 2>&1 && res="$res demo_without=pass" || res="$res demo_without=FAIL"
 git apply "$OUT/patch.diff" && res="$res apply=ok" || res="$res apply=FAIL"
-go build ./analysis/... ./generator/... ./cmd/... > "$WT/build.log" 2>&1 && res="$res build=ok" || res="$res build=FAIL"
+go build ./analysis ./analysis/sql ./analysis/httpapi ./generator/... ./cmd > "$WT/build.log" 2>&1 && res="$res build=ok" || res="$res build=FAIL"
 go test -vet=off -count=1 $FLAGS -run 'Demo|C[0-9][0-9]' ./$PKG > "$WT/demo_with.log" 2>&1 && res="$res demo_with=pass(BAD)" || res="$res demo_with=fail(expected)"
 rm -f "$PKG/zz_demo_test.go"
 go test -json -vet=off -count=1 -timeout 25m ./... > "$WT/suite.json" 2>/dev/null
